@@ -15,7 +15,7 @@ Lemma chunks_map {A B} (f : A -> B) k : forall fuel l, chunks fuel k (map f l) =
 Proof.
   induction fuel as [|n IH]; intro l; [reflexivity|]. destruct l as [|a l]; [reflexivity|].
   change (map f (a :: l)) with (f a :: map f l). cbn [chunks]. change (f a :: map f l) with (map f (a :: l)).
-  rewrite <- firstn_map, <- skipn_map, IH. reflexivity.
+  rewrite firstn_map, skipn_map, IH. reflexivity.
 Qed.
 Lemma chunks_nil {A} fuel k : chunks fuel k (@nil A) = [].
 Proof. destruct fuel; reflexivity. Qed.
@@ -63,7 +63,6 @@ Proof.
     { unfold k, c. rewrite firstn_length. unfold ws. cbn [length]. lia. }
     assert (Hc : forallb is_some c = true) by (apply forallb_firstn; exact Hs).
     unfold line_ok in Hline. rewrite map_length in Hline. fold k in Hline.
-    rewrite <- (firstn_skipn k specs) at 1.
     destruct (written_line_reads (firstn k specs) (skipn k specs) (firstn k specs) (skipn k specs) (map on c) [] Hline
                 (same_cols_refl _) (no_str_skipn _ _ NS) eq_refl) as [line [Em Pm]].
     rewrite (firstn_skipn k specs) in Em, Pm.
@@ -150,6 +149,7 @@ Proof.
   exists (hdr :: vl). split; [|split; [congruence|]].
   - unfold write_block. rewrite Hu. cbn [bind]. rewrite Em. cbn [bind]. rewrite Wv. reflexivity.
   - cbn [app read_blocks readline]. rewrite NB, NP, Ph. unfold hdr_canon. cbn [bind]. rewrite Rv. cbn [bind].
+    change (match perm (canon_block L s b) with Some _ => true | None => false end) with (is_some (perm (canon_block L s b))).
     rewrite canon_perm_is_some by exact Sh. rewrite <- canon_block_eta by exact Sh. reflexivity.
 Qed.
 
@@ -224,7 +224,7 @@ Proof.
         end) = Ok (Some {| kcyc := kcyc t; iter := iter t; nm := nm t; tstart := cn t3 (tstart t); sumtim := cn t4 (sumtim t) |}))).
   { intros specs t0 t1 t2 t3 t4 -> T0 T1 T2 T3 T4 H. rewrite tget_names in *. unfold line_ok in H. cbn [length firstn] in H.
     destruct (written_line_reads _ [] [t0; t1; t2; t3; t4] [] _ [] H (same_cols_refl _) eq_refl eq_refl) as [line [Em _]].
-    destruct (written_line_reads _ [] [t0; t1; t2; t3; t4] [] _ (spaces (80 - length (line ++ [newline]))) H
+    destruct (written_line_reads _ [] [t0; t1; t2; t3; t4] [] _ (spaces (pad_len - length (line ++ [newline]))) H
                 (same_cols_refl _) eq_refl (forallb_spaces _)) as [line' [Em' Pm]].
     rewrite app_nil_r in Em, Em'. rewrite Em in Em'. inversion Em' as [EL]. apply app_inv_tail in EL. subst line'.
     exists (line ++ [newline]). split; [exact Em|]. intro NB. cbn [readline]. rewrite NB.
